@@ -16,6 +16,11 @@ C02-pair    formoperators._handle_derivative_arguments lifted (with the construc
             direction paired with each coefficient is the tensor carrying the given argument(s) in exactly the
             requested fixed component(s) and zero elsewhere (shapes of rank 1..3, single components, tuples of
             components, whole coefficients, several coefficients returned in count order).
+C02-compose apply_derivatives interpreted from source (dispatcher + the rulesets it instantiates + lifted constructors)
+            on whole integrands with Gateaux derivative nodes - products, powers, quotients, sin/exp/sqrt, gradients,
+            contractions, several coefficients at once, independent integrands, nested second derivatives - in the
+            symbolic world of sa/pipeworld.py: the result means d/dtau F(w + tau v) at 0 as computed by the calculus
+            oracle on the integrand's meaning; no derivative node remains (sa/rules/c02_compose.py).
 """
 
 from __future__ import annotations
@@ -460,6 +465,10 @@ def run(ctx) -> Report:
     rep = Report("C02")
     check_tables(ctx, rep, "C02", RULESETS)
     derivative_arguments(ctx, rep)
+    from .c02_compose import compose
+
+    n_comp = compose(ctx, rep)
+    rep.counts["whole_integrand_cases"] = n_comp
     lifted = calc_instances(ctx, rep, "GateauxDerivativeRuleset", "C02", var_shapes=((), (2,)) + (((2, 2),) if ctx.thorough() else ()))
     gateaux_terminals(ctx, rep)
     check_memo_keys(ctx, rep, "C02-key", [MOD])
